@@ -110,7 +110,11 @@ type Plan struct {
 	// FailOut: indices (counting every frame the client hands to its socket after the connection is up,
 	// from 0) whose transmission fails with a socket error: the frame is not transmitted.
 	FailOut []int `json:"fail_out,omitempty"`
-	Group   bool  `json:"group,omitempty"`
+	// FailDiscRes: indices (counting the disconnect responses the client hands to its socket, from 0) whose
+	// transmission fails. A disconnect response is fire-and-forget: whether it could be written changes nothing about
+	// what the client does next (it reconnects), so the reference models need not know.
+	FailDiscRes []int `json:"fail_discres,omitempty"`
+	Group       bool  `json:"group,omitempty"`
 }
 
 // ---------------------------------------------------------------------------------- trace
@@ -335,6 +339,7 @@ type Sim struct {
 	mu            sync.Mutex
 	nConn, nHb    int
 	nAck, nDisc   int
+	nDiscRes      int // disconnect responses handed to the socket so far
 	behind        int // requests to put behind the next OK connect response (GwStep.Behind) and their first tag
 	behindTag     int
 	curChan       int // channel of the last OK connect response injected
@@ -448,6 +453,16 @@ func (s *Sim) onSend(f *common.OutFrame) error {
 			}
 		}
 		s.mu.Unlock()
+		if _, isDiscRes := f.Svc.(*knxnet.DiscRes); isDiscRes {
+			s.mu.Lock()
+			for _, x := range p.FailDiscRes {
+				if x == s.nDiscRes {
+					fail = true
+				}
+			}
+			s.nDiscRes++
+			s.mu.Unlock()
+		}
 		if fail {
 			e.Err = errSockScripted.Error()
 			s.Tr.add(e)
